@@ -144,7 +144,7 @@ fn main() {
     };
     mccore::guard::install_quiet_hook();
     common::asan_init();
-    {
+    if ctx.config != "miri" {
         let out = out.clone();
         let id = id.clone();
         let cfg = ctx.config.clone();
